@@ -46,6 +46,7 @@ type VerifC20Obs struct {
 	//   bookkeeping:<what>   table and mapping of the real cache are out of step after this operation
 	//   once-state-leaked    a *Line returned by this Load already carries Line.once state (FirstTime was false)
 	//   save-failed          SaveAutofixChanges reported "Cannot write" for a blocked file
+	//   hit                  FileCache.hits went up during this Load (round 5)
 	Flags []string
 }
 
@@ -62,6 +63,11 @@ func VerifC20Path(dir string, key, spelling int) CurrPath {
 		base += ".mk"
 	} else {
 		base += ".txt"
+	}
+	if key >= 5 && key < 8 {
+		// round 5: files 5, 6, 7 are sub/f0.mk, sub/f1.mk, sub/f2.mk: the same base
+		// names as files 0, 1, 2 in another directory (different files, different keys)
+		base = "sub/f" + strconv.Itoa(key-5) + ".mk"
 	}
 	switch spelling {
 	case 1:
@@ -271,7 +277,12 @@ func VerifFileCacheScript(dir string, capacity int, mode string, files map[int]s
 					}
 				}
 				fresh := verifC20Lines(verifC20Fresh(filename, options))
+				hitsBefore := G.fileCache.hits
 				lines := Load(filename, options)
+				if G.fileCache.hits != hitsBefore {
+					// round 5: FileCache.hits went up: this Load was served by the cache
+					obs.Flags = append(obs.Flags, "hit")
+				}
 				got := verifC20Lines(lines)
 				obs.Token = "L" + guard + ":" + got + ":" + fresh
 				if got != fresh {
